@@ -71,12 +71,60 @@ func (w *World) newValueCounter(consumers map[*ssa.Function]bool) *valueCounter 
 }
 
 func (vc *valueCounter) isValueReader(fn *ssa.Function) bool {
+	return vc.opensValue(fn, 0)
+}
+
+// opensValue: fn obtains a tag itself — directly, or in code extracted from it:
+// an unexported function all of whose uses are static calls from fn (the head of
+// the production split off, `readMapHead` of `readMap`) is part of fn.
+func (vc *valueCounter) opensValue(fn *ssa.Function, depth int) bool {
 	for _, cs := range vc.w.callSitesIn(fn) {
-		if sc := cs.call.Call.StaticCallee(); sc != nil && vc.tagRd[sc] {
+		sc := cs.call.Call.StaticCallee()
+		if sc == nil {
+			continue
+		}
+		if vc.tagRd[sc] {
+			return true
+		}
+		if depth < 3 && sc != fn && vc.consumers[sc] && vc.w.extractedFrom(sc, fn) && vc.opensValue(sc, depth+1) {
 			return true
 		}
 	}
 	return false
+}
+
+// extractedFrom: h is an unexported package function with a body whose only
+// uses in the package are static calls made by fn.
+func (w *World) extractedFrom(h, fn *ssa.Function) bool {
+	if h == nil || h.Blocks == nil || !w.inPkg(h) || h.Parent() != nil || token.IsExported(h.Name()) {
+		return false
+	}
+	refs := h.Referrers()
+	n := 0
+	if refs != nil {
+		for _, ref := range *refs {
+			c, ok := ref.(*ssa.Call)
+			if !ok || c.Call.Value != ssa.Value(h) || c.Parent() != fn {
+				return false
+			}
+			n++
+		}
+	}
+	if n > 0 {
+		return true
+	}
+	// (methods are not referred to as values by their static calls: use the call graph)
+	node := w.CG.Nodes[h]
+	if node == nil || len(node.In) == 0 {
+		return false
+	}
+	for _, e := range node.In {
+		c, ok := e.Site.(*ssa.Call)
+		if !ok || c.Call.StaticCallee() != h || c.Parent() != fn {
+			return false
+		}
+	}
+	return true
 }
 
 // ofCall: the possible numbers of values call c consumes (nil: unknown).
